@@ -741,9 +741,11 @@ pub fn adts_frame(tag: u32, len: usize, protected: bool) -> (Vec<u8>, Vec<u8>) {
 }
 
 pub fn opus_packet(tag: u32, len: usize) -> Vec<u8> {
-    // TOC: code 0 (one frame), mono; the configuration (and with it the coded duration: 60, 20,
-    // 2.5, 10 ms under RFC 6716) varies with the tag
-    let mut p = vec![([15u8, 4, 24, 0][(tag % 4) as usize] << 3) | 0];
+    // TOC: the configuration (and with it the coded duration: 60, 20, 2.5, 10 ms under RFC 6716)
+    // varies with the tag; three of four packets are code 0 (one frame), the fourth is a code-3
+    // packet (TOC 0x03) with its frame-count byte (one CBR frame)
+    let cfg = [15u8, 4, 24, 0][(tag % 4) as usize];
+    let mut p = if tag % 4 == 3 { vec![(cfg << 3) | 3, 0x01] } else { vec![cfg << 3] };
     p.extend(body(tag.wrapping_add(0x23), len.max(1)));
     p
 }
